@@ -1,5 +1,6 @@
 import Ts.Lemmas.Proj
 import Ts.Lemmas.Projb
+import Ts.Lemmas.C02d
 import Ts.Props.C02
 import Ts.Props.C06
 import Ts.Props.C08
@@ -27,6 +28,15 @@ PES handler's slot over an interleaving; here the TRACE is projected.
    force (C10), or go to recorders without scripted action.
 3. **Corollaries**: `es_consumer_sees_only_its_pid` (C19), `es_consumer_conservation` (C02),
    `es_consumer_well_nested` (C08) for EVERY tag over ANY pushed bytes.
+4. **Bytes of the pushed buffer** (section 5): `frame_range_is_buffer_window` — a range of a framed
+   packet is a window of the buffer handed to `push`; `es_payload_bytes_from_pushed_buffer` (and
+   `…_benign`, `es_payload_bytes_from_buffer`) — the buffer bytes at the global ranges consumer `τ`
+   is handed, grouped per PES packet (`payloadGroups`), are exactly the multiplexed payloads.
+5. **End to end** (section 6): `es_conservation_end_to_end` — from `Demultiplex::new`, one push of
+   concrete PAT and PMT packets followed by ANY interleaving of a well-formed PES stream with
+   benign traffic; no hypothesis on internal state.
+6. `rejected_optional_header_still_delivered_split` (section 7): the reading of C08's "header could
+   not be recognised" clause on the `exSplit` packets of `Props/C02.lean`.
 -/
 namespace Ts.Props.C02Trace
 open Ts Ts.Demux Ts.App Ts.Lemmas.Proj Ts.Spec.Protocol Ts.Spec.PesMux
@@ -1010,5 +1020,481 @@ example : (match frame (exEs ++ exHostile) 376 with
           ∧ accepts .notStarted (esTrace 2 c) = some .idle)
        | .panic _ => false)
     | .panic _ => false) = true := by decide +kernel
+
+/-! ## 5. the delivered bytes, read from the PUSHED BUFFER -/
+
+open Ts.Lemmas.C02 (sliceOf groupsFrom payloadGroups InBuf)
+
+/-- a range `(o, l)` of a packet that `push` framed out of `buf` IS that window of `buf`: the
+packet-relative ranges of the callbacks (C08 / C12) and the global ranges of the application events
+(`pk.off + o`) denote bytes of the buffer the caller passed in (`base` = bytes pushed before) -/
+theorem frame_range_is_buffer_window (buf : Bytes) (base : Nat) (pks : List Pk)
+    (hf : frame buf base = .ok pks) (pk : Pk) (hm : pk ∈ pks) (o l : Nat) (hol : o + l ≤ 188) :
+    Packet.rangeBytes pk.bytes (o, l) = (buf.drop (pk.off - base + o)).take l := by
+  have h := (Ts.Lemmas.C19.frame_pk_props buf base pks hf pk hm).2.2.2.1
+  rw [h]
+  exact Ts.Lemmas.C02.rangeBytes_window buf _ o l hol
+
+/-- `InBuf buf base pk`: the packet sits in `buf` at its recorded stream offset; holds for every
+packet framed out of `buf` -/
+theorem inBuf_iff (buf : Bytes) (base : Nat) (pk : Pk) :
+    InBuf buf base pk ↔ base ≤ pk.off ∧ pk.bytes = (buf.drop (pk.off - base)).take 188 := Iff.rfl
+
+theorem inBuf_of_frame (buf : Bytes) (base : Nat) (pks : List Pk) (hf : frame buf base = .ok pks) :
+    ∀ pk ∈ pks, InBuf buf base pk :=
+  Ts.Lemmas.C02.inBuf_of_frame buf base pks hf
+
+/-- `sliceOf buf base e`: the bytes of the pushed buffer at the global range the event carries -/
+theorem sliceOf_vocabulary (buf : Bytes) (base tag off len : Nat) (bi : BeginInfo) :
+    sliceOf buf base (.esCont tag off len) = (buf.drop (off - base)).take len
+    ∧ (bi.pl = some (off, len) → sliceOf buf base (.esBegin tag bi) = (buf.drop (off - base)).take len)
+    ∧ (bi.pl = none → sliceOf buf base (.esBegin tag bi) = [])
+    ∧ sliceOf buf base (.esStart tag) = [] ∧ sliceOf buf base (.esEnd tag) = []
+    ∧ sliceOf buf base (.esCcErr tag) = [] ∧ sliceOf buf base (.pkt tag off) = [] := by
+  refine ⟨rfl, ?_, ?_, rfl, rfl, rfl, rfl⟩
+  · intro h; simp only [sliceOf, h]
+  · intro h; simp only [sliceOf, h]
+
+/-- `payloadGroups buf base es`: the buffer slices of ONE consumer's events `es`, grouped per PES
+packet.  `groupsFrom … cur es` scans `es` with `cur` = the group being collected: `esBegin` closes
+`cur` and opens a new group with its exposed payload; `esCont` appends its slice to the open group
+(and is dropped when none is open); `esEnd` and `esCcErr` close it; `esStart` (and events that are
+not elementary-stream callbacks) are skipped; at the end the open group is closed. -/
+theorem payloadGroups_spec (buf : Bytes) (base tag off len : Nat) (bi : BeginInfo) (cur : Option Bytes)
+    (b : Bytes) (es : List Ev) :
+    payloadGroups buf base es = groupsFrom buf base none es
+    ∧ groupsFrom buf base cur [] = cur.toList
+    ∧ groupsFrom buf base cur (.esBegin tag bi :: es)
+        = cur.toList ++ groupsFrom buf base (some (sliceOf buf base (.esBegin tag bi))) es
+    ∧ groupsFrom buf base (some b) (.esCont tag off len :: es)
+        = groupsFrom buf base (some (b ++ sliceOf buf base (.esCont tag off len))) es
+    ∧ groupsFrom buf base none (.esCont tag off len :: es) = groupsFrom buf base none es
+    ∧ groupsFrom buf base cur (.esEnd tag :: es) = cur.toList ++ groupsFrom buf base none es
+    ∧ groupsFrom buf base cur (.esCcErr tag :: es) = cur.toList ++ groupsFrom buf base none es
+    ∧ groupsFrom buf base cur (.esStart tag :: es) = groupsFrom buf base cur es :=
+  ⟨rfl, rfl, rfl, rfl, rfl, rfl, rfl, rfl⟩
+
+/-- **BYTE-LEVEL CONSERVATION against the buffer**, dispatcher level.  Hypotheses of
+`es_consumer_conservation` (`TagInv`; slot `p` holds the PES handler tagged `τ` in state `f`; the
+unflagged PID-`p` packets of the interleaving `pks` are the packets of a well-formed `PesStream`
+`s`; `Keeps`), plus `hin`: those packets sit in `buf` (pushed after `base` bytes) at their recorded
+offsets.  Then, for the events `outs.flatten` consumer `τ` newly observes
+(`proj τ c' = proj τ c ++ outs.flatten`):
+* grouped per PES packet — from each `esBegin` up to, excluding, the next `esBegin` / `esEnd` — the
+  bytes OF `buf` at the ranges the events report are exactly the payloads of the PES packets of
+  `s`, one group per packet, in order (`payloadGroups`); in particular the `k`-th group is the
+  payload of the `k`-th packet;
+* all slices together are all payload bytes of the stream. -/
+theorem es_payload_bytes_from_buffer (p τ : Nat) (buf : Bytes) (base : Nat) (pks : List Pk)
+    (t : Tab Handler) (c : Ctx) (f : PesFilter.F) (t' : Tab Handler) (c' : Ctx) (s : List (PesPkt × Plan))
+    (hi : TagInv (t, c)) (hg : t.get p = some (.pes τ f))
+    (hin : ∀ pk ∈ own p pks, InBuf buf base pk)
+    (hsub : (own p pks).map (·.bytes) = streamPackets s) (hs : PesStream f.cc s)
+    (hK : Keeps p τ (t, c) pks = true)
+    (hrun : pushSpec App.sem (t, c) pks = .ok (t', c')) :
+    ∃ outs,
+      esAll c.cfg.touch τ (own p pks) (streamEvs f.st (s.map (·.2))) = .ok outs ∧
+      proj τ c' = proj τ c ++ outs.flatten ∧
+      payloadGroups buf base outs.flatten = s.map (·.1.payload) ∧
+      (∀ (k : Nat) (x : PesPkt × Plan), s[k]? = some x → (payloadGroups buf base outs.flatten)[k]? = some x.1.payload) ∧
+      (outs.flatten.map (sliceOf buf base)).flatten = (s.map (·.1.payload)).flatten ∧
+      t'.get p = some (.pes τ (streamFinal f s)) := by
+  obtain ⟨outs, a1, a2, a3, _, _⟩ := es_consumer_conservation p τ pks t c f t' c' s hi hg hsub hs hK hrun
+  obtain ⟨g1, g2⟩ := Ts.Lemmas.C02.stream_groups buf base c.cfg.touch τ s f.st f.cc (own p pks) outs
+    hs hsub hin a1
+  have g : payloadGroups buf base outs.flatten = s.map (·.1.payload) := by
+    have := g1 none
+    simpa [payloadGroups] using this
+  refine ⟨outs, a1, a2, g, ?_, g2, a3⟩
+  intro k x hx
+  rw [g, List.getElem?_map, hx]
+  rfl
+
+/-- **MAIN, `Demultiplex::push` on raw bytes.**  One call `push buf` (after `base` earlier bytes)
+framing the packets `pks`; hypotheses of `es_consumer_conservation` otherwise.  The bytes the
+elementary-stream consumer `τ` receives between one `begin_packet` and the next `begin_packet` /
+`end_packet` — read FROM THE BUFFER THE CALLER PASSED, at the global ranges the events report — are
+exactly the payload of the PES packet that was multiplexed, for every PES packet of the stream. -/
+theorem es_payload_bytes_from_pushed_buffer (p τ : Nat) (buf : Bytes) (base : Nat) (pks : List Pk)
+    (t : Tab Handler) (c : Ctx) (f : PesFilter.F) (t' : Tab Handler) (c' : Ctx) (s : List (PesPkt × Plan))
+    (hi : TagInv (t, c)) (hg : t.get p = some (.pes τ f))
+    (hf : frame buf base = .ok pks)
+    (hsub : (own p pks).map (·.bytes) = streamPackets s) (hs : PesStream f.cc s)
+    (hK : Keeps p τ (t, c) pks = true)
+    (hrun : push App.sem (t, c) buf base = .ok (t', c')) :
+    ∃ outs,
+      esAll c.cfg.touch τ (own p pks) (streamEvs f.st (s.map (·.2))) = .ok outs ∧
+      proj τ c' = proj τ c ++ outs.flatten ∧
+      payloadGroups buf base outs.flatten = s.map (·.1.payload) ∧
+      (∀ (k : Nat) (x : PesPkt × Plan), s[k]? = some x → (payloadGroups buf base outs.flatten)[k]? = some x.1.payload) ∧
+      (outs.flatten.map (sliceOf buf base)).flatten = (s.map (·.1.payload)).flatten ∧
+      t'.get p = some (.pes τ (streamFinal f s)) := by
+  unfold push at hrun
+  rw [hf] at hrun
+  have hrun : pushModel App.sem (t, c) pks = .ok (t', c') := hrun
+  rw [C06.push_refines_spec] at hrun
+  refine es_payload_bytes_from_buffer p τ buf base pks t c f t' c' s hi hg ?_ hsub hs hK hrun
+  intro pk hm
+  simp only [own, List.mem_filter] at hm
+  exact inBuf_of_frame buf base pks hf pk hm.1
+
+/-- … with INPUT-LEVEL hypotheses: the other packets framed out of `buf` are `Benign` (other
+elementary streams, repetitions of the tables in force, null / recorder packets without scripted
+action) for the table and script at the start of the call -/
+theorem es_payload_bytes_from_pushed_buffer_benign (ver : Nat → Nat) (p τ : Nat) (buf : Bytes)
+    (base : Nat) (pks : List Pk) (t : Tab Handler) (c : Ctx) (f : PesFilter.F) (t' : Tab Handler)
+    (c' : Ctx) (s : List (PesPkt × Plan))
+    (hi : TagInv (t, c)) (hg : t.get p = some (.pes τ f))
+    (hf : frame buf base = .ok pks)
+    (hsub : (own p pks).map (·.bytes) = streamPackets s) (hs : PesStream f.cc s)
+    (hB : ∀ pk ∈ pks, pk.pid ≠ p → Benign ver c.cfg.script t pk)
+    (hrun : push App.sem (t, c) buf base = .ok (t', c')) :
+    ∃ outs,
+      esAll c.cfg.touch τ (own p pks) (streamEvs f.st (s.map (·.2))) = .ok outs ∧
+      proj τ c' = proj τ c ++ outs.flatten ∧
+      payloadGroups buf base outs.flatten = s.map (·.1.payload) ∧
+      (∀ (k : Nat) (x : PesPkt × Plan), s[k]? = some x → (payloadGroups buf base outs.flatten)[k]? = some x.1.payload) ∧
+      (outs.flatten.map (sliceOf buf base)).flatten = (s.map (·.1.payload)).flatten ∧
+      t'.get p = some (.pes τ (streamFinal f s)) :=
+  es_payload_bytes_from_pushed_buffer p τ buf base pks t c f t' c' s hi hg hf hsub hs
+    (keeps_of_benign_traffic ver p τ pks t c f hg hB) hrun
+
+/-! ## 6. END TO END from the initial state -/
+
+/-- PAT on PID 0 (program 1 → PMT PID 0x20), as `exPat` but with a VALID CRC (`a2 c3 29 41`), so it
+is accepted by the release build (`bypassCrc = false`) too -/
+def e2ePat : Bytes := pad [0x47, 0x40, 0x00, 0x10, 0x00,
+  0x00, 0xB0, 0x0D, 0x00, 0x01, 0xC1, 0x00, 0x00, 0x00, 0x01, 0xE0, 0x20, 0xA2, 0xC3, 0x29, 0x41]
+
+/-- PMT on PID 0x20 (H.264 video on PID 0x21, AAC audio on PID 0x22), as `exPmt2` with a valid CRC
+(`fa 81 67 0f`) -/
+def e2ePmt : Bytes := pad [0x47, 0x40, 0x20, 0x10, 0x00,
+  0x02, 0xB0, 0x17, 0x00, 0x01, 0xC1, 0x00, 0x00, 0xE0, 0x21, 0xF0, 0x00,
+  0x1B, 0xE0, 0x21, 0xF0, 0x00, 0x0F, 0xE0, 0x22, 0xF0, 0x00, 0xFA, 0x81, 0x67, 0x0F]
+
+/-- the context after the set-up prefix: `exCtx0` (four tags handed out; the trace holds the four
+`construct` requests) under the configuration `cfg` -/
+def e2eCtx (cfg : Cfg) : Ctx := { exCtx0 with cfg := cfg }
+
+example : e2ePat.length = 188 ∧ e2ePmt.length = 188 ∧ (e2ePat ++ e2ePmt).length = 376 := by decide +kernel
+
+/-- the CRCs are valid: the two sections pass the CRC layer of the release build -/
+example : Psi.crcPass false ((e2ePat.drop 5).take 16) = .ok true
+    ∧ Psi.crcPass false ((e2ePmt.drop 5).take 26) = .ok true := by decide +kernel
+
+/-- the set-up run for the two builds and the two `touch` settings -/
+def e2eRun (b tch : Bool) : R (Tab Handler × Ctx) :=
+  runApp { bypassCrc := b, touch := tch, script := [] } [e2ePat ++ e2ePmt]
+
+theorem e2eRun_ff : e2eRun false false = .ok (exTab0, e2eCtx { bypassCrc := false, touch := false }) := by
+  obtain ⟨a, h1, h2⟩ := ok_of_check (e2eRun false false)
+    (fun tc => decide (tc = (exTab0, e2eCtx { bypassCrc := false, touch := false }))) (by decide +kernel)
+  rw [h1, of_decide_eq_true h2]
+theorem e2eRun_ft : e2eRun false true = .ok (exTab0, e2eCtx { bypassCrc := false, touch := true }) := by
+  obtain ⟨a, h1, h2⟩ := ok_of_check (e2eRun false true)
+    (fun tc => decide (tc = (exTab0, e2eCtx { bypassCrc := false, touch := true }))) (by decide +kernel)
+  rw [h1, of_decide_eq_true h2]
+theorem e2eRun_tf : e2eRun true false = .ok (exTab0, e2eCtx { bypassCrc := true, touch := false }) := by
+  obtain ⟨a, h1, h2⟩ := ok_of_check (e2eRun true false)
+    (fun tc => decide (tc = (exTab0, e2eCtx { bypassCrc := true, touch := false }))) (by decide +kernel)
+  rw [h1, of_decide_eq_true h2]
+theorem e2eRun_tt : e2eRun true true = .ok (exTab0, e2eCtx { bypassCrc := true, touch := true }) := by
+  obtain ⟨a, h1, h2⟩ := ok_of_check (e2eRun true true)
+    (fun tc => decide (tc = (exTab0, e2eCtx { bypassCrc := true, touch := true }))) (by decide +kernel)
+  rw [h1, of_decide_eq_true h2]
+
+/-- THE SET-UP PREFIX, evaluated once per build / `touch` setting: from `Demultiplex::new`, pushing
+the PAT and PMT packets leaves the table `exTab0` — PAT handler on PID 0, PMT handler on PID 0x20,
+PES filters tagged 2 and 3 on PIDs 0x21 and 0x22 — and the context `e2eCtx cfg`.  `hscript`: the
+harness script is empty (the default). -/
+theorem e2e_setup (cfg : Cfg) (hscript : cfg.script = []) :
+    runApp cfg [e2ePat ++ e2ePmt] = .ok (exTab0, e2eCtx cfg) := by
+  obtain ⟨b, tch, scr⟩ := cfg
+  simp only at hscript
+  subst hscript
+  cases b <;> cases tch
+  · exact e2eRun_ff
+  · exact e2eRun_ft
+  · exact e2eRun_tf
+  · exact e2eRun_tt
+
+theorem exTab0_get_none (q : Nat) (h0 : q ≠ 0) (h1 : q ≠ 0x20) (h2 : q ≠ 0x21) (h3 : q ≠ 0x22) :
+    exTab0.get q = none := by
+  by_cases hq : q < 35
+  · have key : ∀ i : Fin 35, i.val ≠ 0 → i.val ≠ 0x20 → i.val ≠ 0x21 → i.val ≠ 0x22 →
+        exTab0.get i.val = none := by decide +kernel
+    exact key ⟨q, hq⟩ h0 h1 h2 h3
+  · have hl : exTab0.length = 35 := by decide +kernel
+    unfold Tab.get
+    rw [if_pos (by omega)]
+
+/-- which packets are `Benign` for the table after the set-up prefix and the empty script, written
+out: packets of the OTHER elementary stream (PID 0x22); packets on the PAT / PMT PIDs 0 / 0x20 that
+are flagged (transport error / scrambled) or repetition packets of the tables in force (C10
+`RepPacket 0`: version 0); packets on any PID not in the table (null packets on 0x1fff, …: the
+application gives them a recorder, which queues nothing under the empty script) -/
+theorem benign_after_setup (pk : Pk)
+    (h : pk.pid = 0x22
+      ∨ ((pk.pid = 0 ∨ pk.pid = 0x20) ∧ (pk.flagged = true ∨ RepPacket 0 pk.bytes))
+      ∨ (pk.pid ≠ 0 ∧ pk.pid ≠ 0x20 ∧ pk.pid ≠ 0x21 ∧ pk.pid ≠ 0x22)) :
+    Benign (fun _ => 0) [] exTab0 pk := by
+  have g22 : exTab0.get 0x22 = some (.pes 3 {}) := by decide +kernel
+  have g0 : exTab0.get 0 = some (.pat { lastVersion := some 0 } [0x20]) := by decide +kernel
+  have g20 : exTab0.get 0x20 = some (.pmt 0x20 1 { lastVersion := some 0 } [0x21, 0x22]) := by
+    decide +kernel
+  rcases h with h | ⟨h | h, x⟩ | ⟨h0, h1, h2, h3⟩
+  · exact Or.inl ⟨3, {}, by rw [h]; exact g22⟩
+  · exact Or.inr (Or.inl ⟨⟨.pat { lastVersion := some 0 } [0x20], by rw [h]; exact g0, ⟨rfl, rfl⟩⟩, x⟩)
+  · exact Or.inr (Or.inl ⟨⟨.pmt 0x20 1 { lastVersion := some 0 } [0x21, 0x22], by rw [h]; exact g20,
+      ⟨rfl, rfl⟩⟩, x⟩)
+  · exact Or.inr (Or.inr ⟨Or.inr ⟨exTab0_get_none _ h0 h1 h2 h3, h0⟩, Or.inr rfl⟩)
+
+/-- **END TO END, from `Demultiplex::new`.**  ANY configuration `cfg` with the default (empty)
+harness script — either build, callbacks touching everything or not.  ONE call of `push` with the
+bytes `e2ePat ++ e2ePmt ++ body`: a PAT packet listing program 1 on PMT PID 0x20, a PMT packet
+listing H.264 video on PID 0x21 and AAC audio on PID 0x22 (concrete, 376 bytes), then ANY `body`
+such that, `pks` being the packets framed out of it (`C07.frame_spec`: the aligned 188-byte chunks
+with a sync byte),
+* `hsub`, `hs`: the unflagged PID-0x21 packets are, in order, the transport packets of a well-formed
+  `PesStream` `s` (C02's independent encoder: any PES packets, header shapes, splits, adaptation-field
+  stuffing, payload-less packets),
+* `hB`: every other packet is `Benign` — see `benign_after_setup`: the other elementary stream,
+  repetitions of the PAT / PMT, flagged packets, null packets and other unregistered PIDs —
+  in ANY interleaving.
+No hypothesis on any internal state.  Then the run succeeds, and consumer 2 (the tag the PMT's
+request for PID 0x21 got) observes, over the WHOLE run, exactly the `esAll` image of the encoder's
+expected callbacks `streamEvs` (`es_image_first` / `es_image_cont`); the bytes of the pushed buffer
+at the ranges it is handed, grouped per PES packet, are exactly the multiplexed payloads; its
+filter ends in `streamFinal`; the trace records that tag 2 was handed out for the PMT's stream
+request for PID 0x21 (stream type 0x1B).  (`e2e_two_pushes`: the same for the two pushes
+`[e2ePat ++ e2ePmt, body]`.) -/
+theorem es_conservation_end_to_end (cfg : Cfg) (hscript : cfg.script = []) (body : Bytes)
+    (pks : List Pk) (s : List (PesPkt × Plan))
+    (hf : frame body 376 = .ok pks)
+    (hsub : (own 0x21 pks).map (·.bytes) = streamPackets s) (hs : PesStream none s)
+    (hB : ∀ pk ∈ pks, pk.pid ≠ 0x21 → Benign (fun _ => 0) [] exTab0 pk) :
+    ∃ t' c' outs,
+      runApp cfg [e2ePat ++ e2ePmt ++ body] = .ok (t', c') ∧
+      esAll cfg.touch 2 (own 0x21 pks) (streamEvs .begin (s.map (·.2))) = .ok outs ∧
+      proj 2 c' = outs.flatten ∧
+      payloadGroups (e2ePat ++ e2ePmt ++ body) 0 (proj 2 c') = s.map (·.1.payload) ∧
+      ((proj 2 c').map (sliceOf (e2ePat ++ e2ePmt ++ body) 0)).flatten
+        = (s.map (·.1.payload)).flatten ∧
+      t'.get 0x21 = some (.pes 2 (streamFinal {} s)) ∧
+      Ev.construct (.stream 0x20 0x1B 0x21 0x21 [] []) 2 ∈ c'.trace := by
+  have hlen : (e2ePat ++ e2ePmt).length = 376 := by decide +kernel
+  obtain ⟨t', c', hrun⟩ := Ts.Props.C01.no_panic cfg [e2ePat ++ e2ePmt ++ body]
+  have hsetup := e2e_setup cfg hscript
+  have hi : TagInv (exTab0, e2eCtx cfg) := tagInv_runApp _ _ _ _ hsetup
+  have hsplit : runApp cfg [e2ePat ++ e2ePmt ++ body] =
+      (runApp cfg [e2ePat ++ e2ePmt] >>= fun tc => push App.sem tc body 376) := by
+    unfold runApp
+    rw [Ts.Props.C07.pushAll_single, Ts.Props.C07.pushAll_single,
+      Ts.Props.C07.push_append _ _ _ _ 0 (by rw [hlen]), hlen]
+  rw [hsplit, hsetup] at hrun
+  simp only [R.ok_bind] at hrun
+  unfold push at hrun
+  rw [hf] at hrun
+  have hrun : pushModel App.sem (exTab0, e2eCtx cfg) pks = .ok (t', c') := hrun
+  rw [C06.push_refines_spec] at hrun
+  have hg : exTab0.get 0x21 = some (.pes 2 {}) := by decide +kernel
+  have hK : Keeps 0x21 2 (exTab0, e2eCtx cfg) pks = true := by
+    refine keeps_of_benign_traffic (fun _ => 0) 0x21 2 pks exTab0 (e2eCtx cfg) {} hg ?_
+    intro pk hm hne
+    have : (e2eCtx cfg).cfg.script = [] := hscript
+    rw [this]
+    exact hB pk hm hne
+  have hin : ∀ pk ∈ own 0x21 pks, InBuf (e2ePat ++ e2ePmt ++ body) 0 pk := by
+    intro pk hm
+    simp only [own, List.mem_filter] at hm
+    refine Ts.Lemmas.C02.inBuf_append ?_
+    rw [hlen]
+    exact inBuf_of_frame body 376 pks hf pk hm.1
+  obtain ⟨outs, a1, a2, a3, _, a5, a6⟩ := es_payload_bytes_from_buffer 0x21 2 (e2ePat ++ e2ePmt ++ body) 0
+    pks exTab0 (e2eCtx cfg) {} t' c' s hi hg hin hsub hs hK hrun
+  have hp0 : proj 2 (e2eCtx cfg) = [] := rfl
+  rw [hp0, List.nil_append] at a2
+  obtain ⟨_, _, _, new, htr⟩ := tagInv_pushSpec pks _ _ hi hrun
+  refine ⟨t', c', outs, ?_, a1, a2, by rw [a2]; exact a3, by rw [a2]; exact a5, a6, ?_⟩
+  · rw [hsplit, hsetup]
+    simp only [R.ok_bind]
+    unfold push
+    rw [hf]
+    show pushModel App.sem (exTab0, e2eCtx cfg) pks = _
+    rw [C06.push_refines_spec]
+    exact hrun
+  · have htr : c'.trace = new ++ (e2eCtx cfg).trace := htr
+    rw [htr]
+    exact List.mem_append_right _ (by simp [e2eCtx, exCtx0])
+
+/-- the same run cut into TWO pushes, the set-up prefix and the body (C07: cutting at a packet
+boundary changes nothing) -/
+theorem e2e_two_pushes (cfg : Cfg) (body : Bytes) :
+    runApp cfg [e2ePat ++ e2ePmt, body] = runApp cfg [e2ePat ++ e2ePmt ++ body] := by
+  have hlen : (e2ePat ++ e2ePmt).length = 376 := by decide +kernel
+  unfold runApp
+  have := Ts.Props.C07.chunking_irrelevant_unaligned_last App.sem (App.init cfg) [e2ePat ++ e2ePmt] body 0
+    (by intro c hc; simp only [List.mem_cons, List.not_mem_nil, or_false] at hc; rw [hc, hlen])
+  simp only [List.cons_append, List.nil_append, List.flatten_cons, List.flatten_nil,
+    List.append_nil] at this
+  rw [this, Ts.Props.C07.pushAll_single]
+
+/-! ### non-vacuity of sections 5 and 6 -/
+
+open Ts.Lemmas.C02 (exPksRep exPksRep_benign) in
+/-- NON-VACUITY of `frame_range_is_buffer_window`: the payload range `(4, 184)` of the 7th packet
+framed out of `exBufRep` (pushed after 376 bytes) is the window of `exBufRep` at `1128 + 4` -/
+example : Packet.rangeBytes exA1 (4, 184) = (exBufRep.drop (1504 - 376 + 4)).take 184 := by
+  obtain ⟨pks, hf, hb⟩ := ok_of_check (frame exBufRep 376) (fun pks => decide (pks = exPksRep))
+    (by decide +kernel)
+  have hpks : pks = exPksRep := of_decide_eq_true hb
+  subst hpks
+  exact frame_range_is_buffer_window exBufRep 376 _ hf ⟨exA1, 1504, 0x21, false, false⟩
+    (by simp [exPksRep]) 4 184 (by omega)
+
+open Ts.Lemmas.C02 (exPksRep exPksRep_benign) in
+/-- NON-VACUITY of `es_payload_bytes_from_pushed_buffer_benign`: the interleaving
+`A PAT B PMT B null A A` as raw bytes handed to `push` after 376 bytes, from the state after PAT and
+PMT; the PID-0x21 packets are the packets of the well-formed stream `exStreamA` (two PES packets,
+the first spread over two transport packets).  The theorem yields: the buffer bytes handed to
+consumer 2, grouped per PES packet, are the two multiplexed payloads. -/
+example : ∃ (t' : Tab Handler) (c' : Ctx) (outs : List (List Ev)),
+    push App.sem (exTab0, exCtx0) exBufRep 376 = .ok (t', c') ∧
+    proj 2 c' = proj 2 exCtx0 ++ outs.flatten ∧
+    payloadGroups exBufRep 376 outs.flatten =
+      [List.replicate 175 0x11 ++ List.replicate 184 0x12, List.replicate 175 0x13] := by
+  have ok1 : ((push App.sem (exTab0, exCtx0) exBufRep 376).isOk
+      && decide ((own 0x21 exPksRep).map (·.bytes) = streamPackets exStreamA)
+      && decide (PesStream none exStreamA)) = true := by decide +kernel
+  simp only [Bool.and_eq_true, decide_eq_true_eq] at ok1
+  obtain ⟨⟨ok1, hsub⟩, hs⟩ := ok1
+  obtain ⟨pks, hf, hb⟩ := ok_of_check (frame exBufRep 376) (fun pks => decide (pks = exPksRep))
+    (by decide +kernel)
+  have hpks : pks = exPksRep := of_decide_eq_true hb
+  subst hpks
+  cases hrun : push App.sem (exTab0, exCtx0) exBufRep 376 with
+  | panic s => rw [hrun] at ok1; cases ok1
+  | ok r =>
+    obtain ⟨t', c'⟩ := r
+    obtain ⟨outs, _, a2, a3, _⟩ := es_payload_bytes_from_pushed_buffer_benign (fun _ => 0) 0x21 2
+      exBufRep 376 _ exTab0 exCtx0 {} t' c' exStreamA exState_inv.1 (by decide +kernel) hf hsub hs
+      (fun pk hm _ => exPksRep_benign pk hm) hrun
+    exact ⟨t', c', outs, rfl, a2, a3⟩
+
+section e2eData
+open Ts.Spec.SectionMux Ts.Lemmas.C10 Ts.Lemmas.C03
+
+/-- the sections carried by `e2ePat` / `e2ePmt` (valid CRCs) -/
+def e2ePatSec : Bytes :=
+  [0x00, 0xB0, 0x0D, 0x00, 0x01, 0xC1, 0x00, 0x00, 0x00, 0x01, 0xE0, 0x20, 0xA2, 0xC3, 0x29, 0x41]
+def e2ePmtSec : Bytes :=
+  [0x02, 0xB0, 0x17, 0x00, 0x01, 0xC1, 0x00, 0x00, 0xE0, 0x21, 0xF0, 0x00,
+   0x1B, 0xE0, 0x21, 0xF0, 0x00, 0x0F, 0xE0, 0x22, 0xF0, 0x00, 0xFA, 0x81, 0x67, 0x0F]
+
+theorem e2ePat_rep : RepPacket 0 e2ePat := by
+  refine ⟨by decide +kernel, ?_⟩
+  intro q hq
+  have : plOf e2ePat = some ⟨true, plBytesOf e2ePatSec, 4⟩ := by decide +kernel
+  rw [this] at hq
+  cases hq
+  exact Or.inr ⟨e2ePatSec, muxOf e2ePatSec, by decide +kernel, by decide +kernel, by decide +kernel,
+    by decide +kernel, rfl, by decide +kernel⟩
+
+theorem e2ePmt_rep : RepPacket 0 e2ePmt := by
+  refine ⟨by decide +kernel, ?_⟩
+  intro q hq
+  have : plOf e2ePmt = some ⟨true, plBytesOf e2ePmtSec, 4⟩ := by decide +kernel
+  rw [this] at hq
+  cases hq
+  exact Or.inr ⟨e2ePmtSec, muxOf e2ePmtSec, by decide +kernel, by decide +kernel, by decide +kernel,
+    by decide +kernel, rfl, by decide +kernel⟩
+
+end e2eData
+
+/-- a body for the end-to-end theorem: `A PAT B PMT B null A A` (the two elementary streams, the PAT
+and the PMT REPEATED, a null packet) followed by three stray bytes that do not fill a packet -/
+def e2eBody : Bytes :=
+  exA0 ++ e2ePat ++ exB0 ++ e2ePmt ++ exB1 ++ Ts.Lemmas.C02.exNull ++ exA1 ++ exA2 ++ [0x47, 0x01, 0x02]
+
+def e2ePks : List Pk :=
+  [⟨exA0, 376, 0x21, false, false⟩, ⟨e2ePat, 564, 0, false, false⟩, ⟨exB0, 752, 0x22, false, false⟩,
+   ⟨e2ePmt, 940, 0x20, false, false⟩, ⟨exB1, 1128, 0x22, false, false⟩,
+   ⟨Ts.Lemmas.C02.exNull, 1316, 0x1fff, false, false⟩, ⟨exA1, 1504, 0x21, false, false⟩,
+   ⟨exA2, 1692, 0x21, false, false⟩]
+
+/-- NON-VACUITY of `es_conservation_end_to_end`, RELEASE build (`cfg = {}`: CRCs checked, default
+script): `e2eBody` frames to `e2ePks`; its PID-0x21 packets are the packets of the well-formed
+stream `exStreamA`; every other packet is benign by `benign_after_setup` (PID 0x22; repetitions
+`e2ePat_rep` / `e2ePmt_rep` on PIDs 0 / 0x20; the null packet on the unregistered PID 0x1fff).  The
+theorem yields the success of the whole run from `Demultiplex::new` and the two payloads read from
+the ONE pushed buffer. -/
+example : ∃ t' c', runApp {} [e2ePat ++ e2ePmt ++ e2eBody] = .ok (t', c') ∧
+    payloadGroups (e2ePat ++ e2ePmt ++ e2eBody) 0 (proj 2 c') =
+      [List.replicate 175 0x11 ++ List.replicate 184 0x12, List.replicate 175 0x13] ∧
+    t'.get 0x21 = some (.pes 2 ⟨some 2, .started⟩) := by
+  obtain ⟨pks, hf, hb⟩ := ok_of_check (frame e2eBody 376) (fun pks => decide (pks = e2ePks))
+    (by decide +kernel)
+  have hpks : pks = e2ePks := of_decide_eq_true hb
+  subst hpks
+  have hd : (decide ((own 0x21 e2ePks).map (·.bytes) = streamPackets exStreamA)
+      && decide (PesStream none exStreamA)
+      && decide (streamFinal {} exStreamA = ⟨some 2, .started⟩)) = true := by decide +kernel
+  simp only [Bool.and_eq_true, decide_eq_true_eq] at hd
+  obtain ⟨⟨hsub, hs⟩, hfin⟩ := hd
+  have hB : ∀ pk ∈ e2ePks, pk.pid ≠ 0x21 → Benign (fun _ => 0) [] exTab0 pk := by
+    intro pk hm hne
+    simp only [e2ePks, List.mem_cons, List.not_mem_nil, or_false] at hm
+    rcases hm with rfl | rfl | rfl | rfl | rfl | rfl | rfl | rfl
+    · exact absurd rfl hne
+    · exact benign_after_setup _ (Or.inr (Or.inl ⟨Or.inl rfl, Or.inr e2ePat_rep⟩))
+    · exact benign_after_setup _ (Or.inl rfl)
+    · exact benign_after_setup _ (Or.inr (Or.inl ⟨Or.inr rfl, Or.inr e2ePmt_rep⟩))
+    · exact benign_after_setup _ (Or.inl rfl)
+    · exact benign_after_setup _ (Or.inr (Or.inr ⟨by decide, by decide, by decide, by decide⟩))
+    · exact absurd rfl hne
+    · exact absurd rfl hne
+  obtain ⟨t', c', outs, a1, _, _, a4, _, a6, _⟩ :=
+    es_conservation_end_to_end {} rfl e2eBody e2ePks exStreamA hf hsub hs hB
+  rw [hfin] at a6
+  exact ⟨t', c', a1, a4, a6⟩
+
+/-- … and concretely (evaluated, release build): what consumer 2 observes over the whole run; the
+ranges are offsets into the one pushed buffer -/
+example : (match runApp {} [e2ePat ++ e2ePmt ++ e2eBody] with
+    | .ok (_, c) => decide (
+        proj 2 c = [.esStart 2, .esBegin 2 (exBi 389), .esCont 2 1508 184, .esEnd 2, .esBegin 2 (exBi 1705)]
+        ∧ payloadGroups (e2ePat ++ e2ePmt ++ e2eBody) 0 (proj 2 c) =
+            [List.replicate 175 0x11 ++ List.replicate 184 0x12, List.replicate 175 0x13])
+    | .panic _ => false) = true := by decide +kernel
+
+/-! ## 7. the reading of C08's "header could not be recognised" clause, on `exSplit` -/
+
+open Ts.Props.C02 (exSplit exPes) in
+/-- **C08 reading, on a PES header SPLIT over two transport packets** (`exSplit` of `Props/C02.lean`:
+the 19-byte PES header of `exPes` cut after 12 bytes; three 188-byte packets).  The first packet's
+payload `(176, 12)` is accepted by `PesHeader::from_bytes` (`00 00 01` prefix, ≥ 6 bytes), its
+OPTIONAL header is rejected (`PesHeader::contents` = `Parsed(None)`; the application reports
+`kind = 2`, no PTS/DTS, no exposed payload) — and the filter still delivers `start_stream`,
+`begin_packet` and BOTH continuation slices; all bytes handed over are the encoded PES packet.
+So "could not be recognised" in C08 is read as "`PesHeader::from_bytes` = `None`"
+(`C08.unrecognised_header_not_delivered…`), not as "optional header rejected"; cf.
+`C08.rejected_optional_header_still_delivered`. -/
+theorem rejected_optional_header_still_delivered_split :
+    (∀ p ∈ exSplit.packets, p.length = 188) ∧
+    PesFilter.run {} exSplit.packets =
+      .ok (⟨some 7, .started⟩, [[.start, .beginPkt 176 12], [.cont 6 182], [.cont 163 25]]) ∧
+    Pes.headerFromBytes (Packet.rangeBytes exSplit.first (176, 12))
+      = .ok (some (Packet.rangeBytes exSplit.first (176, 12))) ∧
+    Pes.contents (Packet.rangeBytes exSplit.first (176, 12)) = .ok (.parsed none) ∧
+    (∀ base, App.beginInfo exSplit.first base 176 12 = .ok ⟨0xE0, 0, 2, none, none⟩) ∧
+    delivered exSplit.packets [[.start, .beginPkt 176 12], [.cont 6 182], [.cont 163 25]]
+      = encodePes exPes := by
+  refine ⟨by decide +kernel, by decide +kernel, by decide +kernel,
+    C08.contents_parsed_none_of_check _ (by decide +kernel), ?_, by decide +kernel⟩
+  intro base
+  rw [beginInfo_base]
+  have : App.beginInfo exSplit.first 0 176 12 = .ok ⟨0xE0, 0, 2, none, none⟩ := by decide +kernel
+  rw [this]
+  rfl
 
 end Ts.Props.C02Trace
